@@ -71,8 +71,9 @@ def _codec(ctx: Ctx, name: str, src_var_kind: str) -> None:
     ctx.check(ok, f"Table.{name}:no-match-advance", "when no candidate matches the cursor moves by exactly one")
     if name == "to_bytes":
         ctx.check(len(els) == 1, "Table.to_bytes:unknown-skipped", f"an unknown character emits nothing; else-arm is {[unparse(s) for s in els]}")
-        hits = [s for s in ast.walk(tries[0]) if isinstance(s, ast.AugAssign) and unparse(s.target) == "binary_text"]
-        ctx.check(len(hits) == 1 and unparse(hits[0].value) == "decoded", "Table.to_bytes:appends-code", "the matched entry's bytes are appended")
+        hits = [unparse(s.value) for s in ast.walk(tries[0]) if isinstance(s, ast.AugAssign) and unparse(s.target) == "binary_text"] + \
+               [unparse(c.args[0]) for c in calls_in(tries[0]) if call_name(c) == "binary_text.extend" and c.args]
+        ctx.check(hits == ["decoded"], "Table.to_bytes:appends-code", f"the matched entry's bytes are appended once; found {hits}")
         r = returns_of(fn.node)
         ctx.check(len(r) == 1 and unparse(r[0].value) == "bytes(binary_text)", "Table.to_bytes:result", "the concatenation, as bytes")
         # escape first
@@ -131,13 +132,8 @@ def r2_scoping(ctx: Ctx) -> None:
     at = ctx.repo.func(NODES, "AbstractTextNode.__init__")
     ctx.check(any(unparse(s) == f"self.text = {at.params()[1]}" for s in at.node.body), "AbstractTextNode.__init__", "keeps the text as written")
     gt = ctx.repo.func("a816.symbols", "Scope.get_table")
-    ok = False
-    for s in walk_no_nested(gt.node):
-        if isinstance(s, ast.If) and unparse(s.test) == "self.table is None":
-            own = [unparse(r.value) for o in s.orelse for r in ast.walk(o) if isinstance(r, ast.Return)]
-            par = [unparse(r.value) for b in s.body for r in ast.walk(b) if isinstance(r, ast.Return)]
-            ok = own == ["self.table"] and "self.parent.get_table()" in par
-    ctx.check(ok, "Scope.get_table", "own table first, else the enclosing scope's")
+    from .c08 import get_table_own_first
+    ctx.check(get_table_own_first(gt), "Scope.get_table", "own table first, else the enclosing scope's")
     gen = ctx.repo.func("a816.parse.codegen", "generate_text")
     ctx.check(any(call_name(c) == "TextNode" and [unparse(a) for a in c.args] == ["node.text", "resolver", "file_info"] for c in calls_in(gen.node)), "generate_text", "TextNode(text, resolver, token)")
     gtb = ctx.repo.func("a816.parse.codegen", "generate_table")
